@@ -14,6 +14,7 @@ import (
 	"reflect"
 	"strings"
 	"sync"
+	"sync/atomic"
 	"time"
 
 	"golang.org/x/crypto/ssh"
@@ -303,14 +304,31 @@ func rigA(r *ev.Run) {
 		}
 		wg.Add(1)
 		sem <- struct{}{}
+		if hungSeqs.Load() >= 3 {
+			break // the transport is wedged: further sequences would only wait out their watchdogs
+		}
 		go func(c *ev.Case, i int) {
 			defer wg.Done()
 			defer func() { <-sem }()
-			r.Guard(c, "client/server sequence", nil, func() { sequence(r, c, i) })
+			done := make(chan struct{})
+			go func() {
+				defer close(done)
+				r.Guard(c, "client/server sequence", nil, func() { sequence(r, c, i) })
+			}()
+			select {
+			case <-done:
+			case <-time.After(3 * ev.OpTimeout()):
+				// a sequence is a few dozen exchanges over a socket pair: milliseconds. One that is still running now is
+				// stuck in an exchange that never completes (its goroutines are abandoned).
+				hungSeqs.Add(1)
+				r.Violation(c, "operation-does-not-return:client-server-sequence", fmt.Sprintf("sequence %d: a client call did not return within the watchdog (eight sequences run at a time, each on a connection of its own)", i), map[string]any{"sequence": i})
+			}
 		}(c, i)
 	}
 	wg.Wait()
 }
+
+var hungSeqs atomic.Int32
 
 func sequence(r *ev.Run, c *ev.Case, seqNo int) {
 	rng := c.Rand
